@@ -40,7 +40,7 @@ class PyRaise(Exception):
     """A Python exception raised by the interpreted program (value is an SObj of an exception class)."""
 
     def __init__(self, exc, where=None):
-        super().__init__(getattr(exc.cls, "__name__", str(exc)))
+        super().__init__(exc.cls.__name__ if hasattr(exc, "cls") else "exception")
         self.exc = exc
         self.where = where
 
@@ -83,11 +83,12 @@ class SInt(SVal):
 class SFloat(SVal):
     """Symbolic float. mode 'fp' (z3 Float64, exact) or 'real' (z3 Real, assumption recorded)."""
 
-    __slots__ = ("e", "mode")
+    __slots__ = ("e", "mode", "iv")
 
     def __init__(self, e, mode):
         self.e = e
         self.mode = mode
+        self.iv = None  # conservative interval (floats.py)
 
     def __repr__(self):
         return f"SFloat[{self.mode}]({self.e})"
@@ -308,6 +309,38 @@ class SList(SVal):
 # path state
 
 
+_FP_CACHE = {}
+
+
+def has_fp(e):
+    """Does the z3 expression contain floating point terms?"""
+    k = e.get_id()
+    hit = _FP_CACHE.get(k)
+    if hit is not None and hit[0].eq(e):
+        return hit[1]
+    todo = [e]
+    seen = set()
+    r = False
+    while todo:
+        x = todo.pop()
+        i = x.get_id()
+        if i in seen:
+            continue
+        seen.add(i)
+        sk = x.sort_kind()
+        if sk in (z3.Z3_FLOATING_POINT_SORT, z3.Z3_ROUNDING_MODE_SORT):
+            r = True
+            break
+        if z3.is_quantifier(x):
+            todo.append(x.body())
+        else:
+            todo.extend(x.children())
+    if len(_FP_CACHE) > 20000:
+        _FP_CACHE.clear()
+    _FP_CACHE[k] = (e, r)  # the expression is kept alive so that its id cannot be reused
+    return r
+
+
 class PathState:
     """One execution: decisions replayed from `prefix`, new ones appended; path condition in `pc`."""
 
@@ -317,7 +350,10 @@ class PathState:
         self.decisions = []
         self.forced = []  # parallel to decisions: True if only one side was feasible
         self.pc = []
+        self.fp_pc = []
         self.solver = z3.Solver()
+        # branch feasibility queries are limited by z3's deterministic resource counter, not by wall
+        # time: no timer thread per query, and verdicts do not flip when the machine is loaded
         self.solver.set("timeout", explorer.branch_timeout_ms)
         self.names = {}
         self.obligations = []  # results recorded on this path
@@ -352,8 +388,14 @@ class PathState:
             return
         if z3.is_false(cond):
             raise PathAbort()
+        if has_fp(cond):
+            # floating point facts are kept out of the branching solver (bit-blasting them on every
+            # feasibility query is what makes float code slow); they are used when goals are proved
+            self.fp_pc.append(cond)
+            return
         self.pc.append(cond)
         self.solver.add(cond)
+        self._note_fact(cond)
         m = getattr(self, "cur_model", None)
         if m is not None and not z3.is_true(m.eval(cond, model_completion=True)):
             self.cur_model = None
@@ -380,6 +422,23 @@ class PathState:
         self.ex.stats["solver_calls"] += 1
         return r
 
+    def check_full(self, extra=None, timeout_ms=None):
+        """Like check(), but with the floating point facts of the path included (fresh solver)."""
+        if not self.fp_pc and (extra is None or not has_fp(extra)):
+            return self.check(extra, timeout_ms)
+        s = z3.Solver()
+        s.set("timeout", timeout_ms if timeout_ms is not None else self.ex.branch_timeout_ms)
+        s.add(*self.pc)
+        s.add(*self.fp_pc)
+        if extra is not None:
+            s.add(extra)
+        r = s.check()
+        self.ex.stats["solver_calls"] += 1
+        self.full_reason = s.reason_unknown() if r == z3.unknown else None
+        if r == z3.sat:
+            self.last_model = s.model()
+        return r
+
     def implied(self, cond):
         """True iff pc entails cond (unsat of pc & !cond)."""
         if isinstance(cond, bool):
@@ -391,6 +450,21 @@ class PathState:
             return False
         return self.check(z3.Not(cond)) == z3.unsat
 
+    def _note_fact(self, c):
+        """Remember equalities `variable == integer constant` that enter the path condition."""
+        try:
+            if z3.is_eq(c):
+                a, b = c.arg(0), c.arg(1)
+                if z3.is_int_value(a):
+                    a, b = b, a
+                if z3.is_int_value(b) and z3.is_const(a) and a.decl().kind() == z3.Z3_OP_UNINTERPRETED:
+                    self.__dict__.setdefault("_known", []).append((a, b))
+            elif z3.is_and(c):
+                for x in c.children():
+                    self._note_fact(x)
+        except z3.Z3Exception:
+            pass
+
     def const_value(self, e):
         """python int c if the path condition entails e == c, else None."""
         if isinstance(e, int):
@@ -398,10 +472,15 @@ class PathState:
         e = z3.simplify(e)
         if z3.is_int_value(e):
             return e.as_long()
+        known = self.__dict__.get("_known")
+        if known:
+            e2 = z3.simplify(z3.substitute(e, *known))
+            if z3.is_int_value(e2):
+                return e2.as_long()
         key = e.get_id()
         cache = self.__dict__.setdefault("_cv", {})
-        if key in cache:
-            return cache[key]
+        if key in cache and cache[key][0].eq(e):
+            return cache[key][1]
         if self.check() != z3.sat:
             return None
         c = self.last_model.eval(e, model_completion=True)
@@ -409,7 +488,7 @@ class PathState:
             return None
         c = c.as_long()
         if self.check(e != c) == z3.unsat:
-            cache[key] = c
+            cache[key] = (e, c)
             return c
         return None
 
@@ -428,11 +507,23 @@ class PathState:
             self.decisions.append(d)
             self.forced.append(True)
             c = cond if d else z3.Not(cond)
-            self.pc.append(c)
-            self.solver.add(c)
+            if has_fp(c):
+                self.fp_pc.append(c)
+            else:
+                self.pc.append(c)
+                self.solver.add(c)
+                self._note_fact(c)
             return d
         if i >= self.ex.max_decisions:
             raise Unsupported(f"more than {self.ex.max_decisions} decisions on one path (unbounded loop without invariant?)")
+        if has_fp(cond):
+            # floating point condition: both sides are explored without asking the solver (an
+            # over-approximation of the feasible paths; goals are still proved with the FP facts)
+            self.ex.schedule(self.decisions + [False])
+            self.decisions.append(True)
+            self.forced.append(False)
+            self.fp_pc.append(cond)
+            return True
         # a model of the current path condition (if we hold one) already settles one side
         m = getattr(self, "cur_model", None)
         known = None
@@ -478,6 +569,7 @@ class PathState:
         c = cond if d else z3.Not(cond)
         self.pc.append(c)
         self.solver.add(c)
+        self._note_fact(c)
         self.cur_model = m_true if d else m_false
         return d
 
@@ -499,6 +591,7 @@ class Explorer:
     def __init__(self, branch_timeout_ms=10000, max_decisions=4000, max_paths=20000):
         self.work = []
         self.branch_timeout_ms = branch_timeout_ms
+        self.branch_rlimit = 20000000
         self.max_decisions = max_decisions
         self.max_paths = max_paths
         self.stats = {"solver_calls": 0, "paths": 0, "aborted": 0}
